@@ -307,7 +307,7 @@ pub fn property() -> Property {
             Box::new(Sweep { name: "c14.installed", run: run_installed, replay }),
             Box::new(Sweep { name: "c14.bundled", run: run_bundled, replay }),
             Box::new(Sweep { name: "c14.synthetic", run: run_synthetic, replay }),
-            Box::new(Prop { name: "c14.generated", quick: 200_000, thorough: 10_000_000, strategy: strat_gen, test: test_gen }),
+            Box::new(Prop { name: "c14.generated", quick: 800_000, thorough: 10_000_000, strategy: strat_gen, test: test_gen }),
         ],
         floors: |rec| {
             rec.floor("c14.generated:start-within-1s-of-transition", "c14.generated:cases", 0.30);
